@@ -304,17 +304,55 @@ def r33(e: Engine, rep: Report):
                   if pth else None)
 
 
+def _recipient_deletions(fn_node):
+    """AST nodes in the function that delete an element of an envelope's
+    recipient list by position: `del X.recipients[i]`, `X.recipients.pop(i)`,
+    also through a local alias `rs = X.recipients`"""
+    alias = {t.id for a in walk_own(fn_node) if isinstance(a, ast.Assign)
+             and isinstance(a.value, ast.Attribute) and
+             a.value.attr == 'recipients'
+             for t in a.targets if isinstance(t, ast.Name)}
+
+    def is_rcpts(x):
+        return (isinstance(x, ast.Attribute) and x.attr == 'recipients') or \
+            (isinstance(x, ast.Name) and x.id in alias)
+    out = []
+    for n in walk_own(fn_node):
+        if isinstance(n, ast.Delete):
+            for t in n.targets:
+                if isinstance(t, ast.Subscript) and is_rcpts(t.value):
+                    out.append(n)
+        elif isinstance(n, ast.Call) and isinstance(n.func, ast.Attribute) \
+                and n.func.attr == 'pop' and n.args and is_rcpts(n.func.value):
+            out.append(n)
+    return out
+
+
+def filter_names(e: Engine):
+    """names under which QueueStorage offers "remove the recipients at
+    these positions from the envelope" (the method that deletes from
+    .recipients by position, and class-level aliases of it)"""
+    c = e.p.cls(STORAGE)
+    names = {m for m, f in c.methods.items() if _recipient_deletions(f.node)}
+    for st in c.node.body:
+        if isinstance(st, ast.Assign) and isinstance(st.value, ast.Name) and \
+                st.value.id in names:
+            names |= {t.id for t in st.targets if isinstance(t, ast.Name)}
+    return names
+
+
 def backend_shape(e: Engine, cq: str):
     """'in-place' | 'accumulate' | None, from the source of the backend."""
+    fnames = filter_names(e)
     ctx = e.method_ctx(cq, 'get')
     calls_filter = any(
         isinstance(n, ast.Call) and isinstance(n.func, ast.Attribute) and
-        n.func.attr == '_remove_delivered_rcpts'
+        n.func.attr in fnames
         for n in walk_own(ctx.func.node))
     sctx = e.method_ctx(cq, 'set_recipients_delivered')
     set_filters = any(
         isinstance(n, ast.Call) and isinstance(n.func, ast.Attribute) and
-        n.func.attr == '_remove_delivered_rcpts'
+        n.func.attr in fnames
         for n in walk_own(sctx.func.node))
     if set_filters and not calls_filter:
         return 'in-place'
@@ -395,8 +433,8 @@ def r35(e: Engine, rep: Report):
         g = e.build(ctx, raises=lambda b, n, r: set())
         where = ctx.func.qname
         rep.functions.add(where)
-        filt = [n for n in g.calls()
-                if e.call_name(n) == '_remove_delivered_rcpts']
+        fnames = filter_names(e)
+        filt = [n for n in g.calls() if e.call_name(n) in fnames]
         before = dataflow.must_events_before(
             g, lambda n: ['filter'] if n in filt else [])
         fx = e.facts(g)
@@ -429,26 +467,73 @@ def r35(e: Engine, rep: Report):
     if n_acc < 3:
         rep.error('anchor vanished: accumulate-and-filter backends (%d < 3)'
                   % n_acc)
-    ctx = e.method_ctx(STORAGE, '_remove_delivered_rcpts')
-    fn = ctx.func.node
-    ok = False
-    for n in walk_own(fn):
-        if isinstance(n, ast.For):
-            it = n.iter
-            txt = ast.unparse(it)
-            desc = ('sorted(' in txt and 'reverse=True' in txt) or \
-                txt.startswith('reversed(sorted(')
-            dels = [x for s in n.body for x in ast.walk(s)
-                    if isinstance(x, ast.Delete)]
-            if desc and dels:
-                ok = True
-    rep.evaluations += 1
-    rep.check(ok, 'R3.5', ctx.func.qname,
-              'delete settled recipients in descending index order',
-              'deleting by ascending (or unsorted) index shifts the '
-              'positions of the recipients still to be deleted: the wrong '
-              'recipients are removed', loc=ctx.func.loc(),
-              reason='for index in sorted(..., reverse=True): del ...')
+    sc = e.p.cls(STORAGE)
+    fdefs = [f for mn, f in sorted(sc.methods.items())
+             if _recipient_deletions(f.node)]
+    if not fdefs:
+        rep.error('anchor vanished: the QueueStorage method that deletes '
+                  'settled recipients by position')
+    for f in fdefs:
+        fn = f.node
+        dels = {id(x) for x in _recipient_deletions(fn)}
+        verdict = None          # True / False / None (shape not read)
+
+        def sorted_how(x):
+            """'desc' / 'asc' for sorted(...) / reversed(sorted(...))"""
+            txt = ast.unparse(x)
+            if txt.startswith('reversed(sorted(') and \
+                    'reverse=True' not in txt:
+                return 'desc'
+            if txt.startswith('sorted('):
+                return 'desc' if 'reverse=True' in txt.replace(' ', '') \
+                    else 'asc'
+            return None
+        for n in walk_own(fn):
+            if isinstance(n, ast.For) and any(
+                    id(x) in dels for s2 in n.body for x in ast.walk(s2)):
+                how = sorted_how(n.iter)
+                verdict = (how == 'desc') if verdict is not False else False
+            elif isinstance(n, ast.While) and any(
+                    id(x) in dels for s2 in n.body for x in ast.walk(s2)):
+                # `while pending: rs.pop(pending.pop())` with
+                # pending = sorted(...): the largest position goes first
+                t = n.test
+                lname = t.id if isinstance(t, ast.Name) else None
+                defs = [a.value for a in walk_own(fn)
+                        if isinstance(a, ast.Assign) and any(
+                            isinstance(tt, ast.Name) and tt.id == lname
+                            for tt in a.targets)]
+                pops = [x for s2 in n.body for x in ast.walk(s2)
+                        if isinstance(x, ast.Call) and
+                        isinstance(x.func, ast.Attribute) and
+                        x.func.attr == 'pop' and
+                        isinstance(x.func.value, ast.Name) and
+                        x.func.value.id == lname]
+                if lname and len(defs) == 1 and len(pops) == 1:
+                    how = sorted_how(defs[0])
+                    a = pops[0].args
+                    last = not a or (
+                        isinstance(a[0], ast.UnaryOp) and
+                        isinstance(a[0].op, ast.USub) and
+                        isinstance(a[0].operand, ast.Constant) and
+                        a[0].operand.value == 1)
+                    first = len(a) == 1 and isinstance(a[0], ast.Constant) \
+                        and a[0].value == 0
+                    if how and (last or first):
+                        v = (how == 'asc' and last) or \
+                            (how == 'desc' and first)
+                        verdict = v if verdict is not False else False
+        rep.evaluations += 1
+        if verdict is None:
+            rep.error('cannot read the order in which %s deletes the '
+                      'settled recipients' % f.qname)
+            continue
+        rep.check(verdict, 'R3.5', f.qname,
+                  'delete settled recipients in descending index order',
+                  'deleting by ascending (or unsorted) index shifts the '
+                  'positions of the recipients still to be deleted: the '
+                  'wrong recipients are removed', loc=f.loc(),
+                  reason='largest position first')
 
 
 # -------------------------------------------------------------------- R3.6
